@@ -29,7 +29,7 @@ def single_enqueue(F, R, ver):
             R.ob('C05.single-enqueue', '%s|%s|push(inflight)' % (ver, top_fn(b.path)), b.path.startswith('%s::shared::MqttShared::' % ver) and fn in allowed,
                  'the outstanding queue is extended from an unreviewed place: the window accounting (readiness gate) does not cover it', b.loc(bi))
             if fn == 'pkt_ack_inner':
-                pops = {x[0] for x in calls_on_field(b, r'VecDeque::<T, A>::pop_front$', 'inflight')}
+                pops = {x[0] for x in calls_on_field(b, r'VecDeque::<T, A>::(pop_front|pop_back|remove|swap_remove_back|swap_remove_front)$', 'inflight')}
                 R.ob('C05.single-enqueue', '%s|pkt_ack_inner|requeue-after-pop' % ver, b.must_pass(pops, bi), 'the PUBREC re-queue must replace the entry popped before (net count unchanged)', b.loc(bi))
     R.floor('C05.single-enqueue', '%s enqueue sites' % ver, n, 4)
 
